@@ -297,6 +297,18 @@ func replayDemand(n *Native, job *Job, v *Violation) (ReplayResult, bool) {
 	if v.Kind != "assert" {
 		return ReplayResult{}, false
 	}
+	if d, have := v.Witness[v.ID+".demand"]; have && strings.HasPrefix(d, "not:") {
+		src := v.Witness["src"]
+		row := v.Witness[v.ID+".row"]
+		conc, okc := concretizeSym(src, v.Witness)
+		if !okc {
+			return ReplayResult{Observed: "cannot make the skeleton concrete"}, true
+		}
+		out, _, _ := n.RunTi(map[string]string{"a.rb": conc}, []string{"./a.rb"}, nativeConfigFor(n, job, src))
+		got := lineFor(out, row)
+		v.Witness["native-program"] = conc
+		return ReplayResult{Cmd: "ti ./a.rb", Reproduced: got == d[4:], Observed: fmt.Sprintf("row %s: native reports %q, which the property forbids", row, got)}, true
+	}
 	if d, have := v.Witness[v.ID+".demand"]; have && d == "diagnostic-not-a-type" {
 		src := v.Witness["src"]
 		row := v.Witness[v.ID+".row"]
@@ -313,7 +325,7 @@ func replayDemand(n *Native, job *Job, v *Violation) (ReplayResult, bool) {
 		}
 		return ReplayResult{Cmd: "ti ./a.rb", Reproduced: bad, Observed: fmt.Sprintf("row %s: native reports %q, the property demands a diagnostic", row, got)}, true
 	}
-	return replayKindsProgram(n, job, v)
+	return replayKindsProgramAlts(n, job, v)
 }
 
 // replayExtraConfig re-judges a C20 counterexample natively: the program under the job's
